@@ -76,7 +76,7 @@ PLANS = {
              "wrong checksums inside open groups; distinct = distinct recorder operations"),
     "C03": dict(
         mc=[mc("MC_Armor", "MC_Armor.cfg", workers=8), mc("MC_Armor", "NC_Armor_emptyfill.cfg", expect="ArmorInv")],
-        families=[fam("armor", F.fam_armor, builds=("std", "none")), fam("corpus", F.fam_corpus)],
+        families=[fam("armor", F.fam_armor, builds=ALL3), fam("corpus", F.fam_corpus)],
         rule="UnarmorAlg = UnarmorReq = Unarmor for all strings of length 0..5 over 6 symbols and 6..12 over 2, fill 0..5; "
              "recorded inputs: all 256 bytes at length 1, length 2 grids, positional sweeps, lengths 0..40(90), long random strings"),
     "C04": dict(
@@ -216,3 +216,11 @@ PLANS = {
              "real binary fed generated streams (valid, fragments, noise, invalid UTF-8, CR, empty lines, 100 kB lines, byte soup), "
              "one event per input line judged by the trace specification"),
 }
+
+# every check also runs the common core on the std and the no-allocator build
+for _pid, _plan in PLANS.items():
+    if _pid == "C20":
+        continue
+    _plan.setdefault("families", [])
+    _plan["families"] = list(_plan["families"]) + [fam("core", F.fam_core, builds=ALL3, twin_merge=E.tag_twin_merge)]
+
